@@ -195,6 +195,18 @@ func (r *CheckRun) harnessCfg(fn *ssa.Function) (Cfg, []string, []string) {
 			}
 		case "note":
 			notes = append(notes, m[2])
+		case "stub":
+			// //vf:stub <qualified function>=<harness function in the same package>
+			if k, v, ok := strings.Cut(strings.TrimSpace(m[2]), "="); ok {
+				if cfg.Stubs == nil {
+					cfg.Stubs = map[string]string{}
+				}
+				cfg.Stubs[k] = v
+				notes = append(notes, "engine-only stub: "+k+" is replaced by the harness function "+v+" (symbolic outcome)")
+			}
+		case "novalidate":
+			notes = append(notes, "passing paths are not cross-validated natively: "+m[2])
+			expect = append(expect, "!novalidate")
 		case "nonative":
 			notes = append(notes, "no native cross-validation: "+m[2])
 			expect = append(expect, "!nonative")
@@ -249,6 +261,8 @@ func (r *CheckRun) Execute() int {
 		for _, e := range expect {
 			if e == "!nonative" {
 				hr.NoNative = true
+			} else if e == "!novalidate" {
+				hr.NoValidate = true
 			} else {
 				hr.Expect = append(hr.Expect, e)
 			}
@@ -399,6 +413,9 @@ func (r *CheckRun) validate() (problems []string) {
 		}
 		n := 0
 		for _, p := range hr.Ex.Samples {
+			if hr.NoValidate {
+				break
+			}
 			if p.Witness == nil || n >= maxSamples {
 				continue
 			}
